@@ -3,6 +3,7 @@ import itertools
 import json
 
 from lib import common as C
+from lib import lockskel as LS
 from lib import histgen as G
 from lib import histcheck as H
 from lib import histprops as P
@@ -88,9 +89,12 @@ def run(rep):
     proof_ok = C.proof_step(rep, "C07")
     C.ensure_driver()
     fsdbh = C.ensure_harness()
+    sk = LS.check(rep, fsdbh, ["UpdateTx"])
     cases = P.corpus("c07.txt")
     ncorpus = len(cases)
     n2, n3 = (40, 12) if rep.tier == "quick" else (400, 150)
+    if LS.broken(sk):
+        n2, n3 = max(n2, 300), max(n3, 100)
     for i in range(n2):
         cases.append(gen_case(rng, "p%d" % i, 2, with_writer=(i % 3 == 0), mixed_levels=(i % 5 == 4)))
     for i in range(n3):
@@ -135,6 +139,7 @@ def run(rep):
         samples=[dict(case=cases[k].split("\n"), impl=impl[k]) for k in (ncorpus, len(cases) - 1)],
         refuted_theorems=["C07_first_committer_wins_refuted_orig (pinned tree; repaired by a fix: commit)"],
         proof_ok=proof_ok)
+    LS.conclude(rep, sk, 'conflict test and publication in ONE critical section of the committed store: C07_one_critical_section')
     rep.assumptions = ["a critical section under a sync.RWMutex write lock is atomic w.r.t. every other section under that lock "
                        "(Go runtime; DESIGN section 3): with the repaired UpdateTx a commit is one step",
                        "schedules explored on the real code: the adversarial one (all tests before any publication) per case; "
